@@ -36,6 +36,8 @@ func walkValue(v types.Value, f func(types.Value)) {
 
 func validEntityType(t types.EntityType) bool { return IsPathC0708(string(t)) }
 
+const ReasonMethodWithoutReceiver = "method-call-without-receiver"
+
 // ExpressibleC0708 reports whether the policy can be spelled in Cedar syntax at all ("" = yes): the
 // remaining trees are programmatic garbage the grammar has no notation for (outside both properties).
 func ExpressibleC0708(p *ast.Policy) string {
@@ -145,6 +147,11 @@ func ExpressibleC0708(p *ast.Policy) string {
 			case ast.NodeTypeExtensionCall:
 				if !IsMethodC0708(string(v.Name)) && !IsFunctionC0708(string(v.Name)) {
 					bad("unknown-extension-function")
+				}
+				if IsMethodC0708(string(v.Name)) && len(v.Args) == 0 {
+					// ast.ExtensionCall("isIpv4"): the grammar has no notation for a method call without receiver
+					// (MarshalCedar writes `isIpv4()`, which is not Cedar); the JSON decoder refuses it too
+					bad(ReasonMethodWithoutReceiver)
 				}
 			case nil:
 				bad("nil-node")
@@ -278,8 +285,12 @@ var CauseRecordKeyQuoting = Cause{Name: "record-key-quoting", Repair: func(p *as
 				val, _ := r.Get(k)
 				if GoQuoteDiffers(string(k)) {
 					ch = true
+					keep := "" // a U+FFFD in the key is a different cause (replacement-char-rejected): keep it
+					if strings.Contains(string(k), fffd) {
+						keep = fffd
+					}
 					for {
-						nk := types.String("k" + strconv.Itoa(i))
+						nk := types.String("k" + strconv.Itoa(i) + keep)
 						i++
 						if _, exists := r.Get(nk); !exists {
 							k = nk
@@ -399,8 +410,9 @@ var CauseReplacementChar = Cause{Name: "replacement-char-rejected", Repair: func
 	return q, changed
 }}
 
-// CauseMethodWithoutReceiver: a method-style extension call with an empty argument list (decodable from
-// JSON, constructible with ast.ExtensionCall): MarshalCedar indexes Args[0] and panics.
+// CauseMethodWithoutReceiver: a method-style extension call with an empty argument list (constructible with
+// ast.ExtensionCall only; the JSON decoder refuses it): MarshalCedar used to index Args[0] and panic.  Such a tree
+// is outside the grammar (ExpressibleC0708); c08.go still replays MarshalCedar on it and reports this class on a panic.
 var CauseMethodWithoutReceiver = Cause{Name: "method-call-without-receiver-panics", Repair: func(p *ast.Policy) (*ast.Policy, bool) {
 	changed := false
 	q := MapPolicy(p, func(n ast.IsNode) ast.IsNode {
